@@ -153,7 +153,7 @@ def decorate(behs, rng):
         # gamma variant: CollectFields-equivalent document shapes and resolver attachment styles
         b["_variant"] = {"wrap": rng.choice(["none", "none", "inline", "inline-untyped", "spread", "split"]),
                          "dup": rng.random() < 0.25, "style": rng.choice(["resolver", "resolver", "method"]),
-                         "err": rng.choice(["fresh", "shared", "subclass", "proxy", "completion", "empty"]), "crash": rng.choice(["runtime", "runtime", "located", "index"]),
+                         "err": rng.choice(["fresh", "shared", "subclass", "proxy", "completion", "empty"]), "crash": rng.choice(["runtime", "runtime", "located", "index", "stopiteration"]),
                          "root": rng.choice(["separate", "separate", "shared"]), "dirs": rng.random() < 0.3,
                          "tn": rng.choice([None, None, 0, 1, 2]), "argdef": rng.random() < 0.4}
     return behs
